@@ -46,7 +46,7 @@ func VHIter() {
 // VHEnum: Each/Any/All/Find/Select/Map with arbitrary predicate and mapping functions (C14).
 func VHEnum() {
 	l, _ := VGList()
-	containers.VEnumStep(containers.VEnum{Recv: l, Indexed: true,
+	containers.VEnumStep(containers.VEnum{Recv: l, Inv: func(c any) { r := c.(*List[int]); v.Assert(len(r.elements) <= cap(r.elements), "inv-len-cap") }, Indexed: true,
 		Seq:    func(c any) ([]int, []int) { vs := c.(*List[int]).Values(); return containers.VIdx(len(vs)), vs },
 		Each:   l.Each, Any: l.Any, All: l.All, Find: l.Find,
 		Select: func(f func(a, b int) bool) any { return l.Select(f) },
@@ -95,4 +95,15 @@ func VHJSONRound() {
 func VHJSONLoad() {
 	c, _ := VGList()
 	containers.VJSONLoad(vJSON(c))
+}
+
+// VHHistory: D operations in a row from the constructor (see VMapHistory).
+func VHHistory() {
+	l := New[int]()
+	lists.VSeqHistory(l, lists.VExt{Name: "ArrayList",
+		Append:  func(vs ...int) { l.Add(vs...) },
+		Prepend: func(vs ...int) { l.Insert(0, vs...) },
+		IndexOf: l.IndexOf,
+		Inv:     func() { v.Assert(len(l.elements) <= cap(l.elements), "inv-len-cap") },
+	})
 }
